@@ -672,6 +672,13 @@ def _fold_dead(tree):
                     if isinstance(st, ast.If):
                         v = _const_truth(st.test)
                         if v is None:
+                            # operands decided by constants that cannot decide the test drop out (`False or X`, `True and X`)
+                            t = st.test
+                            if isinstance(t, ast.BoolOp):
+                                neutral = isinstance(t.op, ast.And)
+                                keep = [o for o in t.values if _const_truth(o) is not neutral]
+                                if keep and len(keep) < len(t.values):
+                                    st.test = keep[0] if len(keep) == 1 else ast.copy_location(ast.BoolOp(op=t.op, values=keep), t)
                             continue
                         live = st.body if v else st.orelse
                         lst[i:i + 1] = live if live or len(lst) > 1 else [ast.copy_location(ast.Pass(), st)]
